@@ -1,5 +1,8 @@
 CONSTANTS p = 13
  nq = 2
+ qnr2 = 0
+ big = FALSE
+ phases = {"quad", "sextic", "dodecic"}
 SPECIFICATION Spec
 INVARIANT Check
 CHECK_DEADLOCK FALSE
